@@ -1,7 +1,7 @@
 SPECIFICATION Spec
 CONSTANTS
   MaxItems = 6
-  Items <- DoItems
-  Wrap = "prog"
-  DumpMod = 97
+  Items <- UnitEndItems
+  Wrap = "sub"
+  DumpMod = 13
 CONSTRAINT Dump
